@@ -7,10 +7,13 @@ from hypothesis import strategies as st
 from .program import OUTCOMES, PHRASE
 
 TAGS = ["a", "b", "c", "wip", "x.y"]
+# tags with a character that behave's tag normalisation for outline rows (Tag.make_name) would
+# drop: used everywhere except ON outlines / inside outline tag placeholders (open point of C06)
+TAGS_X = TAGS + ["p/q"]
 STEP_KW = ["Given", "When", "Then", "And", "But", "*"]
 
 
-def tags_st(max_size=2, pool=TAGS):
+def tags_st(max_size=2, pool=TAGS_X):
     return st.lists(st.sampled_from(pool), max_size=max_size, unique=True)
 
 
@@ -64,7 +67,7 @@ def outline_st(draw, inherited=False, max_steps=3, outcomes=None, **kw):
     outcomes = outcomes or OUTCOMES
     use_tagcol = draw(st.booleans())
     cols = ["x"] + (["t"] if use_tagcol else [])
-    tags = draw(tags_st())
+    tags = draw(tags_st(pool=TAGS))
     if use_tagcol and draw(st.booleans()):
         tags = tags + [u"<t>"]
     steps = draw(steps_st(1, max_steps, inherited=inherited, outcomes=outcomes, cols=["x"], **kw))
@@ -131,7 +134,7 @@ GLOBS = ["a*", "?", "x.*", "[ab]", "w?p", "*"]
 
 
 def operand_st(globs=True):
-    tag = st.sampled_from(TAGS).map(lambda t: ["tag", t])
+    tag = st.sampled_from(TAGS_X).map(lambda t: ["tag", t])
     if not globs:
         return tag
     return st.one_of(tag, tag, tag, st.sampled_from(GLOBS).map(lambda g: ["glob", g]))
@@ -152,7 +155,7 @@ def tagx_v1_st(draw, max_clauses=3, max_lits=3):
     for _ in range(draw(st.integers(1, max_clauses))):
         lits = []
         for _ in range(draw(st.integers(1, max_lits))):
-            t = ["tag", draw(st.sampled_from(TAGS))]
+            t = ["tag", draw(st.sampled_from(TAGS_X))]
             lits.append(["not", t] if draw(st.integers(0, 2)) == 0 else t)
         clauses.append(lits[0] if len(lits) == 1 else ["or"] + lits)
     return clauses[0] if len(clauses) == 1 else ["and"] + clauses
